@@ -9,6 +9,7 @@
    identifier, and the request carries the list of identifiers whose expression holds for this request
    (filled in by the harness with Go's regexp on the subject the code would use). *)
 From Coq Require Import List String Ascii Bool Arith.
+From MV Require Import Gen.RouterSrc.
 Import ListNotations.
 Local Open Scope string_scope.
 
@@ -266,17 +267,19 @@ Definition only_default (t : table) : bool :=
   | _, _, _ => false
   end.
 
-(* findVirtualHost: h = value of the x-mosn-host variable (None when unset) *)
+(* a usable Host value: non-empty and host:port splits *)
+Definition host_parts (h : string) : option (string * string) :=
+  if String.eqb h "" then None else split_graceful (lower h).
+Definition host_parts_opt (h : option string) : option (string * string) :=
+  match h with Some hh => host_parts hh | None => None end.
+
+(* findVirtualHost: h = value of the x-mosn-host variable (None when unset).  host_fallback_default (Gen/RouterSrc.v) says
+   whether the source has `if index == -1 { index = ri.defaultVirtualHostIndex }` before giving up *)
 Definition find_vhost_with wl (t : table) (h : option string) : option nat :=
   if only_default t then t_default t
-  else match h with
-       | None => None
-       | Some hh =>
-           if String.eqb hh "" then None
-           else match split_graceful (lower hh) with
-                | None => None
-                | Some (host, port) => find_index_with wl t host port
-                end
+  else match host_parts_opt h with
+       | Some (host, port) => find_index_with wl t host port
+       | None => if host_fallback_default then t_default t else None
        end.
 Definition find_vhost (t : table) := find_vhost_with (wild_for t) t.
 
@@ -330,14 +333,19 @@ Fixpoint best (host port : string) (es : list (nat * dkind)) (acc : option (nat 
       end
   end.
 
-(* a usable Host value: non-empty and host:port splits *)
-Definition host_parts (h : string) : option (string * string) :=
-  if String.eqb h "" then None else split_graceful (lower h).
-
 Definition spec_vhost (c : config) (h : string) : option nat :=
   match host_parts h with
   | None => None
   | Some (host, port) => option_map fst (best host port (entries c) None)
+  end.
+
+(* for every Host value, also an unset, empty or malformed one: then only the default can apply *)
+Definition is_default (e : nat * dkind) : bool := match snd e with KDefault => true | _ => false end.
+Definition default_of (es : list (nat * dkind)) : option nat := option_map fst (find is_default es).
+Definition spec_vhost_opt (c : config) (h : option string) : option nat :=
+  match host_parts_opt h with
+  | Some (host, port) => option_map fst (best host port (entries c) None)
+  | None => default_of (entries c)
   end.
 
 (* ------------------------------------------------------------------ rule matching *)
